@@ -3,7 +3,7 @@ import ast
 
 from ..core.loader import AnalysisError, own_nodes, norm, ancestors, enclosing_stmt
 from ..core import astq
-from ..core.cfg import ENTRY, EXIT
+from ..core.cfg import ENTRY, EXIT, guards_of
 from . import common as K
 
 EXPLANATION = (
@@ -511,7 +511,22 @@ def _junction_order(ctx, repo, rule):
                 lv, comp = l.target.id, it[: -len(".outlinks")]
             elif it.endswith(".inlinks") and isinstance(l.target, ast.Name):
                 lv, comp = l.target.id, None
-        ctx.require(lv is not None, "%s: add_edge(%s, %s) is not inside a loop over a compartment's links" % (rule, a, b))
+        if lv is None:
+            # edges drawn from some other collection of links (a parameter's links, a filtered list ...): links without a parameter - the residual
+            # outflow of a junction - are not in it, so a junction fed only through a residual link is not ordered after its source
+            its = [ast.unparse(l.iter) for l in loops]
+            ctx.fail(rule, so, enclosing_stmt(c), "the junction ordering graph takes its edges from %s, not from every junction's own outlinks/inlinks: a link that is not in that collection (a residual outflow has no parameter) creates no edge, the downstream junction can be balanced or flushed before its inflow is known, and people are lost" % (" / ".join("`%s`" % i for i in its) or "no loop"), stmt_text="junction-graph-edge-source")
+            continue
+        # ... and the compartment whose links are walked ranges over every junction of every population
+        if comp is not None:
+            cl = [l for l in loops if isinstance(l.target, ast.Name) and l.target.id == comp]
+            ok = bool(cl) and ast.unparse(cl[0].iter).endswith(".comps") and any(pol and "isinstance(%s, JunctionCompartment)" % comp in ast.unparse(t) for t, pol in guards_of(c, stop=cl[0]))
+            conj = []
+            for t, pol in guards_of(c, stop=cl[0] if cl else None):
+                conj += [(v, pol) for v in t.values] if pol and isinstance(t, ast.BoolOp) and isinstance(t.op, ast.And) else [(t, pol)]
+            allowed = ("isinstance(%s, JunctionCompartment)" % comp, "isinstance(%s.dest, JunctionCompartment)" % lv, "isinstance(%s.source, JunctionCompartment)" % lv)
+            extra = [ast.unparse(t) for t, pol in conj if not (pol and ast.unparse(t) in allowed)]
+            ctx.check(ok and not extra, rule, so, enclosing_stmt(c), "edges for every outlink of every junction into a junction", "the junction ordering graph does not get an edge for every outlink of every junction that leads into a junction (loop over `%s`, extra conditions %s)" % (ast.unparse(cl[0].iter) if cl else "?", extra), stmt_text="junction-graph-coverage")
         upstream = {"%s.source" % lv} | ({comp} if comp else set())
         downstream = {"%s.dest" % lv}
         forward = a in upstream and b in downstream
